@@ -500,9 +500,9 @@ func (fc *FnCtx) evalIndex(st *State, x *ast.IndexExpr, commaOk bool) []Val {
 		iv := fc.eval1(st, x.Index)
 		i := fc.toIdx(iv)
 		if fc.inSpec == 0 {
-			fc.assert(st, fc.inBounds(i, app("str.len", base.T), iv), "bounds", "string index in range", x.Pos())
+			fc.assert(st, fc.inBounds(i, app("gs.len", base.T), iv), "bounds", "string index in range", x.Pos())
 		}
-		return []Val{{T: app("str.at", base.T, i), Ty: tUint8}}
+		return []Val{{T: app("gs.at", base.T, i), Ty: tUint8}}
 	case *types.Map:
 		k := fc.evalTo(st, x.Index, t.Key())
 		v, has := fc.mapGet(st, base, k, t)
@@ -571,15 +571,15 @@ func (fc *FnCtx) evalSliceExpr(st *State, x *ast.SliceExpr) Val {
 		_ = t
 		return Val{T: fc.define("slice", "Slice", t2), Ty: fc.typeOf(x)}
 	case *types.Basic: // string
-		hi := app("str.len", base.T)
+		hi := app("gs.len", base.T)
 		if x.High != nil {
 			hi = fc.toIdx(fc.eval1(st, x.High))
 		}
-		fc.assert(st, and(fc.leIdx(zero, lo), fc.leIdx(lo, hi), fc.leIdx(hi, app("str.len", base.T))), "bounds", "string slice bounds", x.Pos())
-		fc.declareOnce("str.sub", fmt.Sprintf("(declare-fun str.sub (Str %s %s) Str)", fc.I(), fc.I()))
-		fc.declareAxiomOnce("str.sub.ax", "str.sub", fmt.Sprintf("(assert (forall ((s Str) (a %s) (b %s)) (! (= (str.len (str.sub s a b)) %s) :pattern ((str.sub s a b)))))", fc.I(), fc.I(), fc.subIdx("b", "a")))
-		fc.declareAxiomOnce("str.sub.ax2", "str.sub", fmt.Sprintf("(assert (forall ((s Str) (a %s) (b %s) (i %s)) (! (= (str.at (str.sub s a b) i) (str.at s %s)) :pattern ((str.at (str.sub s a b) i)))))", fc.I(), fc.I(), fc.I(), fc.addIdx("a", "i")))
-		return Val{T: app("str.sub", base.T, lo, hi), Ty: fc.typeOf(x)}
+		fc.assert(st, and(fc.leIdx(zero, lo), fc.leIdx(lo, hi), fc.leIdx(hi, app("gs.len", base.T))), "bounds", "string slice bounds", x.Pos())
+		fc.declareOnce("gs.sub", fmt.Sprintf("(declare-fun gs.sub (Str %s %s) Str)", fc.I(), fc.I()))
+		fc.declareAxiomOnce("gs.sub.ax", "gs.sub", fmt.Sprintf("(assert (forall ((s Str) (a %s) (b %s)) (! (= (gs.len (gs.sub s a b)) %s) :pattern ((gs.sub s a b)))))", fc.I(), fc.I(), fc.subIdx("b", "a")))
+		fc.declareAxiomOnce("gs.sub.ax2", "gs.sub", fmt.Sprintf("(assert (forall ((s Str) (a %s) (b %s) (i %s)) (! (= (gs.at (gs.sub s a b) i) (gs.at s %s)) :pattern ((gs.at (gs.sub s a b) i)))))", fc.I(), fc.I(), fc.I(), fc.addIdx("a", "i")))
+		return Val{T: app("gs.sub", base.T, lo, hi), Ty: fc.typeOf(x)}
 	case *types.Array:
 		fc.fail(x.Pos(), "slicing an array value (only via pointer or addressable local: outside subset)")
 	}
